@@ -1064,9 +1064,11 @@ func runC18Numbers(ctx *Ctx) {
 					if acc == big.Exact {
 						good = float32(got) == n && math.Signbit(got) == math.Signbit(float64(n))
 					} else {
-						// inexact: nearest, or (double rounding) the neighbour on the other side of x
-						other := math.Nextafter32(n, float32(math.Inf(-int(acc))))
-						good = float32(got) == n || float32(got) == other
+						// inexact: exactly Go's two-step conversion float32(x.Float64()) (C18.float_ok_iff; d18b: no longer
+						// "either neighbour") — which differs from the nearest float32 only in the double-rounding band
+						// (C18.float32StoresNearest_counterexample; counted in c18_d18b.go)
+						f64, _ := x.Float64()
+						good = float32(got) == float32(f64) && math.Signbit(got) == math.Signbit(f64)
 					}
 				} else {
 					n, _ := x.Float64()
@@ -1647,6 +1649,7 @@ func runC18(ctx *Ctx) {
 	runC18NearMiss(ctx)
 	runC18Irregular(ctx)
 	runC18IrregularValues(ctx)
+	runC18D18b(ctx) // slice d18b (c18_d18b.go)
 	ctx.res.Exhaustive = true
 	ctx.res.Scope = fmt.Sprintf("every integer width/sign (10 types) x %d boundary numbers (2^k, k in {0,7,8,15,16,31,32,63,64}, both signs, +-1, +-0.5, huge, infinite, -0, low precision); "+
 		"float32/float64 x %d boundary numbers (overflow thresholds and neighbours, subnormal halves, double-rounding ties, infinities); %d fixed probes x every target type of the family (%d types)",
